@@ -80,6 +80,7 @@ type Event struct {
 	Outcome  string     `json:"outcome,omitempty"`
 	Deadline int64      `json:"deadline,omitempty"`
 	TickNow  int64      `json:"ticknow,omitempty"`
+	Start    int64      `json:"st,omitempty"` // attempt: instant at which the delivery started
 	Firing   []string   `json:"firing,omitempty"`
 	Resolved []string   `json:"resolved,omitempty"`
 	Found    bool       `json:"found,omitempty"`
@@ -140,11 +141,14 @@ func obs(alerts []*alert.Alert) []AlertObs {
 // Window says how an integration answers delivery attempts that START in [From, To).
 type Window struct {
 	Recv  string `json:"recv"`
-	Integ int    `json:"integ"` // index of the integration in its receiver
+	Integ string `json:"integ"` // integration name, e.g. "webhook/0", "email/0"
 	From  int64  `json:"from"`
 	To    int64  `json:"to"`
-	Kind  string `json:"kind"` // rec | unrec | hang
+	Kind  string `json:"kind"` // rec | unrec | hang | slow (delivery takes SlowMs, then succeeds)
 }
+
+// SlowMs is how long a delivery takes inside a "slow" window.
+const SlowMs = 2000
 
 type stub struct {
 	in    *Instance
@@ -157,9 +161,22 @@ type stub struct {
 func (s *stub) Notify(ctx context.Context, alerts ...*alert.Alert) (bool, error) {
 	now := Ms()
 	kind := "ok"
+	me := fmt.Sprintf("%s/%d", s.name, s.idx)
 	for _, w := range s.in.Windows {
-		if w.Recv == s.recv && w.Integ == s.glidx && w.From <= now && now < w.To {
+		if w.Recv == s.recv && w.Integ == me && w.From <= now && now < w.To {
 			kind = w.Kind
+		}
+	}
+	if kind == "slow" {
+		// the delivery takes a while and then succeeds (or is cut by the flush context)
+		select {
+		case <-time.After(SlowMs * time.Millisecond):
+			kind = "ok"
+		case <-ctx.Done():
+			gk, _ := notify.GroupKey(ctx)
+			agid, _ := notify.AggrGroupID(ctx)
+			s.in.Log.Add(Event{Inst: s.in.Name, Ev: "hangend", Gk: gk, Ag: agid, Recv: s.recv, Integ: me})
+			return true, ctx.Err()
 		}
 	}
 	gk, _ := notify.GroupKey(ctx)
@@ -168,7 +185,7 @@ func (s *stub) Notify(ctx context.Context, alerts ...*alert.Alert) (bool, error)
 	if d, ok := ctx.Deadline(); ok {
 		dl = msOf(d)
 	}
-	ev := Event{Inst: s.in.Name, Ev: "attempt", Gk: gk, Ag: agid, Recv: s.recv, Integ: fmt.Sprintf("%s/%d", s.name, s.idx), Alerts: obs(alerts), Outcome: kind, Deadline: dl}
+	ev := Event{Inst: s.in.Name, Ev: "attempt", Start: now, Gk: gk, Ag: agid, Recv: s.recv, Integ: fmt.Sprintf("%s/%d", s.name, s.idx), Alerts: obs(alerts), Outcome: kind, Deadline: dl}
 	s.in.Log.Add(ev)
 	switch kind {
 	case "ok":
@@ -228,6 +245,7 @@ type Options struct {
 	StartDelay          time.Duration // dispatch start delay
 	Position            func() int    // cluster position of this instance
 	PeerTimeout         time.Duration
+	NflogGCInterval     time.Duration // notification-log maintenance (GC only; no snapshot file)
 	SilSnapshot         []byte // state to start from (restart)
 	NflogSnapshot       []byte
 	Log                 *Log
@@ -249,6 +267,8 @@ type Instance struct {
 	Mux      http.Handler
 	R        *app.VerifReloader
 	stopped  bool
+	stopc    chan struct{}
+	maintWG  sync.WaitGroup
 }
 
 var hookMu sync.Mutex
@@ -268,6 +288,14 @@ func New(o Options) (*Instance, error) {
 		return nil, fmt.Errorf("nflog: %w", err)
 	}
 	in.Nflog = nl
+	if o.NflogGCInterval > 0 {
+		in.stopc = make(chan struct{})
+		in.maintWG.Add(1)
+		go func() {
+			defer in.maintWG.Done()
+			nl.Maintenance(o.NflogGCInterval, "", in.stopc, nil)
+		}()
+	}
 	in.Marker = marker.NewGroupMarker()
 
 	so := silence.Options{Retention: o.Retention, Metrics: in.Reg, EventRecorder: eventrecorder.NopRecorder()}
@@ -357,6 +385,10 @@ func (in *Instance) Stop() {
 	in.stopped = true
 	in.R.Stop()
 	in.Alerts.Close()
+	if in.stopc != nil {
+		close(in.stopc)
+		in.maintWG.Wait()
+	}
 }
 
 // Snapshots returns what a maintenance snapshot would write.
